@@ -67,3 +67,42 @@ class Session:
         return ex
 
     def M(self, spec): return self.resolver.M(spec)
+
+def _struct_fields(roots, features):
+    out = {}
+    for root in roots:
+        for d, _, fn in os.walk(root):
+            for f in fn:
+                if not f.endswith('.rs'): continue
+                text = open(os.path.join(d, f)).read()
+                text = re.sub(r'//[^\n]*', '', text)
+                for m in re.finditer(r'\bstruct\s+(\w+)\s*(<[^{;]*>)?\s*(where[^{]*)?\{', text):
+                    name = m.group(1); i = m.end(); depth = 1; j = i
+                    while j < len(text) and depth > 0:
+                        if text[j] == '{': depth += 1
+                        elif text[j] == '}': depth -= 1
+                        j += 1
+                    body = text[i:j-1]
+                    parts, dep, cur = [], 0, ''
+                    for c in body:
+                        if c in '{([<': dep += 1
+                        elif c in '})]>': dep -= 1
+                        if c == ',' and dep == 0: parts.append(cur); cur = ''
+                        else: cur += c
+                    if cur.strip(): parts.append(cur)
+                    fields = []
+                    for p in parts:
+                        cfgs = re.findall(r'#\[cfg\(feature\s*=\s*"(\w+)"\)\]', p)
+                        ncfgs = re.findall(r'#\[cfg\(not\(feature\s*=\s*"(\w+)"\)\)\]', p)
+                        if any(c not in features for c in cfgs) or any(c in features for c in ncfgs): continue
+                        p2 = re.sub(r'#\[[^\]]*\]', '', p).strip()
+                        mm = re.match(r'^(?:pub(?:\([^)]*\))?\s+)?(\w+)\s*:', p2)
+                        if mm: fields.append(mm.group(1))
+                    out[name] = fields
+    return out
+
+def _field_index(self, struct, field):
+    if not hasattr(self, '_fields'):
+        self._fields = _struct_fields([self.info['src_root'], os.path.join(self.info['hx_root'], 'src')], self.features)
+    return self._fields[struct].index(field)
+Session.field_index = _field_index
